@@ -51,6 +51,10 @@ def parse(ints):
     if op == 5:
         cnt = ints[2]
         return dict(op=5, entries=[(X(ints[3 + 3 * i]), X(ints[4 + 3 * i]), X(ints[5 + 3 * i])) for i in range(cnt)])
+    if op == 6:
+        cnt = ints[9]
+        return dict(op=6, fn=ints[2], a=X(ints[3]), b=X(ints[4]), lo=X(ints[5]), hi=X(ints[6]), n=ints[7], status=ints[8],
+                    pts=[dict(xlo=X(ints[10 + 4 * i]), xhi=X(ints[11 + 4 * i]), f_lo=X(ints[12 + 4 * i]), f_hi=X(ints[13 + 4 * i])) for i in range(cnt)])
     return dict(op=op)
 
 
@@ -81,6 +85,15 @@ def describe(ints, verdict, case_json):
         elif d["op"] == 4 and 0 <= pos < len(d["pts"]):
             p = d["pts"][pos]
             out.update(a=m2.fstr(d["a"]), x=m2.fstr(p["x"]), GammaInc=m2.fstr(p["p"]), GammaIncComp=m2.fstr(p["q"]), failed=CODES4.get(verdict[3], verdict[3]))
+        elif d["op"] == 6:
+            out.update(op="monotonicity scan in x", function={1: "BetaInc(x,a,b)", 2: "GammaInc(a,x)", 3: "GammaIncComp(a,x)"}.get(d["fn"], d["fn"]),
+                       a=m2.fstr(d["a"]), b=m2.fstr(d["b"]),
+                       failed={2: "value outside [0,1] or not finite", 3: "not monotone in x beyond 1e-12", 7: "panic"}.get(verdict[3] if len(verdict) > 3 else None))
+            if 0 <= pos < len(d["pts"]):
+                pt = d["pts"][pos]
+                out["pair"] = {k: m2.fstr(v, 19) for k, v in pt.items()}
+                if m2.is_num(pt["f_lo"]) and m2.is_num(pt["f_hi"]):
+                    out["step"] = m2.fstr(pt["f_hi"] - pt["f_lo"])
         elif d["op"] == 5 and 0 <= pos < len(d["entries"]):
             a, b, o = d["entries"][pos]
             out.update(a=m2.fstr(a), b=m2.fstr(b), Beta=m2.fstr(o))
